@@ -3,16 +3,17 @@
 # worktree of /repo (so that /repo and /verif stay usable meanwhile):  ./seed_regress.sh [name-prefix]
 # One line per seed: CAUGHT / MISSED. The scratch copies are removed at the end.
 set -u
-WT=/tmp/regress-repo; VR=/tmp/regress-verif
+WT=/tmp/regress-repo${TAG:-}; VR=/tmp/regress-verif${TAG:-}
 git -C /repo worktree remove --force $WT 2>/dev/null; rm -rf $WT $VR
 git -C /repo worktree add --detach $WT HEAD >/dev/null 2>&1 || { echo "cannot create worktree"; exit 2; }
 mkdir -p $VR && rsync -a --exclude .git --exclude replays --exclude '.cache/seed_regress.log' /verif/ $VR/
 trap 'git -C /repo worktree remove --force $WT >/dev/null 2>&1; git -C /repo worktree prune; rm -rf $VR' EXIT
-for d in /verif/seeded/${1:-}*/; do
+for d in /verif/seeded/${SEED_GLOB:-${1:-}*}/; do
   name=$(basename $d)
   prop=$(python3 -c "import json;print(json.load(open('$d/meta.json'))['property'])")
   checks=$prop
-  case $name in C05d-*) checks="C17";; esac
+  # changes that only a sibling check can see (they need concurrency, or were written for it)
+  case $name in C05d-*|C06e-*|C04i-*|C02j-*|C03j-*|C18j-*) checks="C17";; C05f-*) checks="C06";; C15f-*|C16e-*) checks="C11";; esac
   if ! git -C $WT apply $d/patch.diff 2>/dev/null; then echo "$name: PATCH-DOES-NOT-APPLY"; continue; fi
   out=$(cd $VR && VERIF_REPO=$WT ./run check $checks quick 2>&1); rc=$?
   git -C $WT checkout -- . ; git -C $WT clean -fdq
